@@ -87,6 +87,15 @@ func (c *CLICase) jobs() []CLIJob {
 			os.WriteFile(filepath.Join(dir, "fifo.got"), got, 0o644)
 		}
 		j.OutFrom = "fifo.got"
+	case "odd-names":
+		// copies of the source under names with blanks, non-ASCII characters, a leading dash, and in nested directories
+		j.Setup = func(dir string) {
+			b, _ := os.ReadFile(filepath.Join(dir, "in.nas"))
+			os.MkdirAll(filepath.Join(dir, "a b", "ディレクトリ"), 0o755)
+			for _, n := range []string{"my source.nas", "ソース.nas", "a b/ディレクトリ/s.nas", "-dash.nas", "in.nas.bak", "IN.NAS"} {
+				os.WriteFile(filepath.Join(dir, n), b, 0o644)
+			}
+		}
 	case "out-symlink-to-other":
 		j.Setup = func(dir string) {
 			os.WriteFile(filepath.Join(dir, "real.bin"), []byte("old contents, longer than the image"), 0o644)
@@ -292,6 +301,20 @@ func init() {
 		add(&CLICase{What: "args", Args: []string{"-d"}, WantExit: 16, Cell_: "argv1 -d"})
 		add(&CLICase{What: "args", Src: good, Args: []string{"-d", "in.nas"}, WantExit: 16, Cell_: "argv2 -d source-only"})
 		add(&CLICase{What: "args", Src: []byte{}, Args: []string{"in.nas", "out.bin"}, WantExit: 0, Ref: []byte{}, Cell_: "argv2 empty-source"})
+		// path spellings: blanks, non-ASCII names, nested directories with "..", a leading dash behind "./" or "--"
+		for _, pv := range [][]string{{"my source.nas", "out put.bin"}, {"ソース.nas", "出力.bin"}, {"a b/ディレクトリ/s.nas", "a b/ディレクトリ/../o.bin"},
+			{"./-dash.nas", "./-o.bin"}, {"--", "in.nas", "out.bin"}, {"-d", "--", "in.nas", "out.bin"}, {"in.nas.bak", "in.nas.bak.bin"}, {"IN.NAS", "OUT.BIN"},
+			{"a b/../in.nas", "a b/ディレクトリ/out.bin"}, {"in.nas", "out.bin", "my list.lst"},
+			// names that begin with a dash are ordinary names once the first file name has been seen (or after "--")
+			{"in.nas", "-o.bin"}, {"--", "in.nas", "-p.bin"}, {"--", "-dash.nas", "-q.bin"}, {"in.nas", "q.bin", "-q.lst"}, {"in.nas", "out.bin", "-d"}, {"in.nas", "-d", "-v"},
+			{"-d", "in.nas", "-v"}, {"in.nas", "--", "x"}, {"in.nas", "-"}, {"in.nas", "out.bin", "--", "-x"}} {
+			add(&CLICase{What: "args", Src: good, Setup: "odd-names", Args: pv, WantExit: 0, Ref: goodImg, Cell_: "argv path-spelling " + strings.Join(pv, "|")})
+		}
+		// sources without a single statement
+		for i, es := range []string{"; only a comment\n", "# hash comment\n; and another\n\n", "\n\n\n", "\t \n  \n", "; no newline at the end", "\r\n\r\n", ";コメント\n"} {
+			// (whether the grammar accepts such a file is not C19's business: the command must agree with the in-process API)
+			add(&CLICase{What: "same-as-api", Src: []byte(es), Prefill: []byte("OLD"), Cell_: fmt.Sprintf("same-as-api statement-free-source %d", i)})
+		}
 		// the same path scenarios with a source that selects the COFF writer (it creates the file on its own)
 		coffSrc := []byte("[FORMAT \"WCOFF\"]\n[BITS 32]\n[FILE \"obj.nas\"]\n\tGLOBAL _io_hlt\n[SECTION .text]\n_io_hlt:\n\tHLT\n\tRET\n")
 		add(&CLICase{What: "args", Src: coffSrc, Args: []string{"in.nas", "nodir/out.obj"}, WantExit: 17, Cell_: "argv2 coff output-in-missing-directory"})
